@@ -15,6 +15,7 @@ import (
 	"fmt"
 	"math/rand"
 	"os"
+	"path/filepath"
 	"sort"
 	"strconv"
 	"testing"
@@ -112,16 +113,8 @@ func (dr *driver) sample(kind string, c any) {
 	}
 }
 
-// safeMerge calls the exported Merge and turns a panic into an error string.
-func safeMerge(recv memberlist.Mergeable, other memberlist.Mergeable, cas bool) (ch memberlist.Mergeable, err error, panicked string) {
-	defer func() {
-		if r := recover(); r != nil {
-			panicked = fmt.Sprint(r)
-		}
-	}()
-	ch, err = recv.Merge(other, cas)
-	return
-}
+var safeMerge = abs.SafeMerge
+var viaCodec = abs.ViaRingCodec
 
 // ------------------------------------------------------------------------------------------- instance ring
 
@@ -255,23 +248,6 @@ func (dr *driver) ringMerge(c *mergeCase) {
 		dr.res.Nontrivial++
 		dr.sample("merge", c)
 	}
-}
-
-// viaCodec moves a descriptor through the ring codec, as a gossiped message does.
-func viaCodec(d *ring.Desc) *ring.Desc {
-	b, err := ring.GetCodec().Encode(d)
-	if err != nil {
-		panic(err)
-	}
-	v, err := ring.GetCodec().Decode(b)
-	if err != nil {
-		panic(err)
-	}
-	out := v.(*ring.Desc)
-	if out.Ingesters == nil {
-		out.Ingesters = map[string]ring.InstanceDesc{}
-	}
-	return out
 }
 
 // perms3 lists the permutations of (0,1,2).
@@ -648,7 +624,12 @@ func TestC03(t *testing.T) {
 		}
 	})
 	if traceDir != "" && res.Fatal == "" {
-		synctest.Test(t, func(t *testing.T) { recordRing(dr, traceDir) })
+		synctest.Test(t, func(t *testing.T) {
+			_, n := abs.RecordRingMerges(abs.RingRecorder{N: abs.EnvInt("VERIF_TN", 12), M: abs.EnvInt("VERIF_TM", 24), Replicas: 3,
+				Steps: abs.EnvInt("VERIF_TSTEPS", 400), MaxNow: abs.EnvInt("VERIF_TMAXNOW", 60), SharedPct: 15, Seed: abs.Seed()*7919 + 11,
+				Path: filepath.Join(traceDir, "ring_trace.ndjson"), SigPrefix: "ring:trace", Corrupt: corrupt}, res)
+			res.AddExtra("ring_trace_events", n)
+		})
 		synctest.Test(t, func(t *testing.T) { recordPart(dr, traceDir) })
 	}
 	for k, v := range dr.counts {
